@@ -14,6 +14,7 @@ import os
 import shutil
 import sys
 import tempfile
+import warnings
 
 sys.path.insert(0, os.path.dirname(os.path.dirname(os.path.abspath(__file__))))
 from vlib import env, harness, gen_systems  # noqa: E402
@@ -24,6 +25,7 @@ GAP_GUARD = 1e-3
 RANK = dict(Energy=0, vel=1, bc=1, bc_int=1, im=2, dbc=2, d3=3, spin=1, dspin=2)
 NATURAL = dict(Energy=0, vel=1, bc=2, bc_int=2, im=2, dbc=3, d3=3, spin=0, dspin=1)  # powers of the lattice constant
 XYZ = "xyz"
+PENDING = os.environ.get("VERIF_C30_PENDING", "") == "1"  # classes that fire on the unchanged tree (reported findings)
 
 
 def setup(ctx):
@@ -32,19 +34,20 @@ def setup(ctx):
     return dict(wb=wb, pg={})
 
 
-def fresh_tabulators(tab, names, ibands, has_AA):
+def fresh_tabulators(tab, names, ibands, has_AA, opts=None):
     ib = None if ibands is None else np.array(ibands)
     noext = {} if has_AA else {"external_terms": False}
+    o = dict(opts or {})
     mk = dict(
-        Energy=lambda: tab.Energy(ibands=ib),
-        vel=lambda: tab.Velocity(ibands=ib),
-        bc=lambda: tab.BerryCurvature(ibands=ib, kwargs_formula=dict(noext)),
-        bc_int=lambda: tab.BerryCurvature(ibands=ib, kwargs_formula={"external_terms": False}),
-        im=lambda: tab.InvMass(ibands=ib),
-        dbc=lambda: tab.DerBerryCurvature(ibands=ib, kwargs_formula=dict(noext)),
-        d3=lambda: tab.Der3E(ibands=ib),
-        spin=lambda: tab.Spin(ibands=ib),
-        dspin=lambda: tab.DerSpin(ibands=ib),
+        Energy=lambda: tab.Energy(ibands=ib, **o),
+        vel=lambda: tab.Velocity(ibands=ib, **o),
+        bc=lambda: tab.BerryCurvature(ibands=ib, kwargs_formula=dict(noext), **o),
+        bc_int=lambda: tab.BerryCurvature(ibands=ib, kwargs_formula={"external_terms": False}, **o),
+        im=lambda: tab.InvMass(ibands=ib, **o),
+        dbc=lambda: tab.DerBerryCurvature(ibands=ib, kwargs_formula=dict(noext), **o),
+        d3=lambda: tab.Der3E(ibands=ib, **o),
+        spin=lambda: tab.Spin(ibands=ib, **o),
+        dspin=lambda: tab.DerSpin(ibands=ib, **o),
     )
     return {n: mk[n]() for n in names}
 
@@ -212,6 +215,231 @@ def component_tests_on_result(ctx, rng, res, names, nb, wit):
                 ctx.count("tuple_component_offdiagonal")
 
 
+# ------------------------------------------------------------------ m-fold degenerate models ------------
+
+def copies_system(rng):
+    """m = 2 or 3 decoupled identical copies of a generic model (H x 1_m, copies interlaced): every level is exactly m-fold
+    degenerate, and the group-averaged value a tabulator must return for band b is the value of band b // m of the single model"""
+    nw1 = int(rng.integers(1, 3))
+    m = int(rng.integers(2, 4))
+    single = gen_systems.herm_system(rng, num_wann=nw1, radius=rng.uniform(1.0, 2.0),
+                                     centers=["random", "outside", "zero"][int(rng.integers(3))])
+    iR = single.rvec.iRvec
+    H = single.get_R_mat("Ham")
+    Hm = np.einsum("rab,ij->raibj", H, np.eye(m)).reshape(len(iR), nw1 * m, nw1 * m)
+    cm = np.repeat(single.wannier_centers_red, m, axis=0)
+    return gen_systems.make_system(single.real_lattice, iR, dict(Ham=Hm), cm), single, m
+
+
+# ------------------------------------------------------------------ collection of hand-made results ------
+
+def handmade_collection_tests(ctx, rng):
+    """TABresult.find_grid / to_grid / self_to_grid / __add__ / get_data on results assembled by hand: the grid points arrive in
+    random order, in several chunks that are added, shifted by reciprocal lattice vectors, with rounding noise, some of them twice;
+    the slot (ix,iy,iz) must hold the values given for the point (ix/Nx,iy/Ny,iz/Nz)."""
+    from wannierberri.result import KBandResult, TABresult
+    cls = int(rng.integers(5))
+    if cls == 0:  # one long direction (>= 100 points, incl. sizes with fl(j/N)*N = j - eps)
+        n = int(rng.choice([100, 101, 107, 128, 22 * 5, 23 * 5, 49 * 3, 150]))
+        N = [1, 1, 1]
+        N[int(rng.integers(3))] = n
+        if rng.random() < 0.5:
+            N[int(rng.integers(3))] = max(N[int(rng.integers(3))], int(rng.integers(1, 4)))
+        ctx.count("handmade_size_ge100")
+    elif cls == 1:  # directions of size one
+        N = [int(x) for x in rng.integers(1, 9, size=3)]
+        N[int(rng.integers(3))] = 1
+        if rng.random() < 0.3:
+            N[int(rng.integers(3))] = 1
+    else:  # anisotropic, primes, 22/23/26/49
+        N = [int(x) for x in rng.choice([1, 2, 3, 4, 5, 6, 7, 8, 9, 11, 13, 22, 23, 26, 49], size=3)]
+        while np.prod(N) > 3000:
+            N[int(np.argmax(N))] = int(rng.integers(1, 5))
+    N = tuple(N)
+    n = int(np.prod(N))
+    nb = int(rng.integers(1, 4))
+    pts = np.array(list(itertools.product(*[np.arange(x) for x in N])), dtype=float) / np.array(N)[None, :]
+    data = dict(Energy=rng.normal(size=(n, nb)), V=rng.normal(size=(n, nb, 3)), T=rng.normal(size=(n, nb, 3, 3)))
+    order = rng.permutation(n)
+    ndup = int(rng.integers(0, 4)) if n > 1 else 0
+    if ndup:
+        order = np.concatenate([order, rng.integers(n, size=ndup)])[rng.permutation(n + ndup)]
+        ctx.count("handmade_duplicates")
+    noise = float(rng.choice([0.0, 1e-12, 1e-9, 1e-7]))
+    shifts = rng.integers(-2, 3, size=(len(order), 3)) if rng.random() < 0.7 else np.zeros((len(order), 3), dtype=int)
+    dk = noise * rng.uniform(-1, 1, size=(len(order), 3))
+    if not PENDING:
+        # finding 3 (pending): in a direction with a single point (N_i = 1) a coordinate of -1e-12 is stored as 1 - 1e-12 and
+        # find_grid returns 1/1e-12 for that direction; until decided, directions of size one get no negative noise
+        dk = np.where(np.array(N)[None, :] == 1, np.abs(dk), dk)
+    k = pts[order] + shifts + dk
+    if noise > 0:
+        ctx.count("handmade_noisy_kpoints")
+    ncut = int(rng.integers(0, min(4, len(order))))
+    cuts = sorted(int(x) for x in rng.choice(np.arange(1, len(order)), size=ncut, replace=False)) if ncut else []
+    B = rng.normal(size=(3, 3))
+    tot = None
+    for part in np.split(np.arange(len(order)), cuts):
+        r = TABresult(k[part], recip_lattice=B,
+                      results={q: KBandResult(np.array(v[order[part]])) for q, v in data.items()})
+        tot = r if tot is None else tot + r
+    wit = dict(N=N, nband=nb, noise=noise, duplicates=ndup, chunks=len(cuts) + 1, shifted=bool(np.any(shifts)))
+    ctx.ev()
+    g = tuple(int(x) for x in tot.find_grid)
+    if g != N:
+        ctx.violation("TABresult.find_grid!=N(handmade)", f"find_grid {g} expected {N}", wit)
+        return
+    with warnings.catch_warnings():
+        warnings.simplefilter("ignore")
+        tot.self_to_grid()
+    ctx.close("TABresult.kpoints!=grid_in_C_order(handmade)", tot.kpoints, pts, rtol=0, atol=1e-12, witness=wit)
+    for q, v in data.items():
+        ctx.close("to_grid(handmade)[slot]!=values_given_for_that_point", tot.results[q].data, v, rtol=0, atol=1e-13,
+                  what=f"quantity {q}", witness=wit)
+    ctx.count("handmade_collection")
+    # get_data on the grid: forms of iband
+    ibl = [int(x) for x in rng.integers(nb, size=int(rng.integers(1, nb + 2)))]
+    ib = [None, int(rng.integers(nb)), ibl, tuple(ibl), np.array(ibl)][int(rng.integers(5))]
+    sel = np.arange(nb) if ib is None else (list(ib) if isinstance(ib, tuple) else ib)
+    ctx.count(f"iband_form_{type(ib).__name__}")
+    comp = [(0, 1), "yx", "trace", (2, 2)][int(rng.integers(4))]
+    ctx.close("TABresult.get_data(handmade)!=numpy_on_given_values", tot.get_data("T", iband=ib, component=comp),
+              numpy_component(data["T"].reshape(N + (nb, 3, 3))[:, :, :, sel], 2, comp), rtol=0, atol=1e-13,
+              what=f"T component {comp!r} iband {ib!r}", witness=wit)
+    ctx.close("TABresult.get_data(handmade)!=numpy_on_given_values", tot.get_data("Energy", iband=ib),
+              data["Energy"].reshape(N + (nb,))[:, :, :, sel], rtol=0, atol=1e-13, what=f"Energy iband {ib!r}", witness=wit)
+    # a second collection of the collected object changes nothing
+    before = {q: np.array(tot.results[q].data) for q in data}
+    with warnings.catch_warnings():
+        warnings.simplefilter("ignore")
+        tot.self_to_grid()
+    ok = tuple(int(x) for x in tot.grid) == N and all(np.array_equal(before[q], tot.results[q].data) for q in data) \
+        and np.allclose(tot.kpoints, pts, rtol=0, atol=1e-12)
+    ctx.ev()
+    ctx.count("idempotent_regrid")
+    if not ok:
+        ctx.violation("self_to_grid_twice!=once", "the second self_to_grid changed the collected result", wit)
+    # collection on a coarser grid (documented: points that are not on the requested grid are skipped)
+    divs = [[d for d in range(1, x + 1) if x % d == 0] for x in N]
+    M = tuple(int(d[int(rng.integers(len(d)))]) for d in divs)
+    if M != N:
+        with warnings.catch_warnings():
+            warnings.simplefilter("ignore")
+            sub = tot.to_grid(np.array(M), order="C")
+        step = tuple(a // b for a, b in zip(N, M))
+        for q, v in data.items():
+            full = v.reshape(N + v.shape[1:])[::step[0], ::step[1], ::step[2]]
+            ctx.close("to_grid(coarser)[slot]!=values_given_for_that_point", np.asarray(sub.get_data(q)), full, rtol=0,
+                      atol=1e-13, what=f"quantity {q} grid {M} from {N}", witness=dict(wit, M=M))
+        ctx.count("handmade_coarser_grid")
+    if PENDING:
+        # finding 2: order='F' lists the k-points in Fortran order but keeps the values in C order
+        with warnings.catch_warnings():
+            warnings.simplefilter("ignore")
+            rF = tot.to_grid(np.array(N), order="F")
+        slot = np.rint(rF.kpoints * np.array(N)).astype(int) % np.array(N)
+        exp = data["Energy"].reshape(N + (nb,))[slot[:, 0], slot[:, 1], slot[:, 2]]
+        ctx.close("to_grid(order=F):row_i!=values_of_kpoints_i", rF.results["Energy"].data, exp, rtol=0, atol=1e-13, witness=wit)
+        ctx.count("pending_order_F")
+
+
+# ------------------------------------------------------------------ written files ------------------------
+
+def parse_frmsf(txt):
+    lines = txt.split("\n")
+    N = tuple(int(x) for x in lines[0].split())
+    nb = int(lines[2])
+    B = np.array([[float(x) for x in ln.split()] for ln in lines[3:6]])
+    vals = np.array([float(x) for x in lines[6:] if x.strip() != ""])
+    blocks = vals.reshape((-1, nb) + N)  # block, band, grid in C order
+    return N, lines[1].strip(), nb, B, [np.moveaxis(b, 0, -1) for b in blocks]
+
+
+def check_frmsf_text(ctx, txt, N, E, X, B, wit, what):
+    """text of a FermiSurfer file vs the arrays E[ix,iy,iz,ib] (already shifted by efermi) and X[ix,iy,iz,ib] (or None)"""
+    ctx.ev()
+    try:
+        N2, one, nb2, B2, blocks = parse_frmsf(txt)
+    except Exception as err:  # malformed text
+        ctx.violation("frmsf_text_malformed", f"{what}: {type(err).__name__} {err}", wit)
+        return
+    if N2 != tuple(N) or one != "1" or nb2 != E.shape[3] or len(blocks) != (1 if X is None else 2):
+        ctx.violation("frmsf_header!=grid_nband", f"{what}: header {N2},{one},{nb2}, {len(blocks)} blocks; expected {N}, 1, "
+                                                  f"{E.shape[3]}", wit)
+        return
+    ctx.close("frmsf_recip_lattice!=system", B2, B, rtol=0, atol=0.6e-8, what=what, witness=wit)
+    ctx.close("frmsf_energies!=get_data_C_order_band_major", blocks[0], E, rtol=0, atol=0.6e-8, what=what, witness=wit)
+    if X is not None:
+        ctx.close("frmsf_values!=get_data_C_order_band_major", blocks[1], X, rtol=0, atol=0.6e-8, what=what, witness=wit)
+
+
+def written_files_tests(ctx, rng, res, names, fout, suffix, save_mode, wit):
+    """files written by run() (npz / FermiSurfer text) vs the oracle-checked arrays of get_data"""
+    sfx = ("-" + suffix) if suffix else ""
+    N = tuple(int(x) for x in res.grid)
+    E = np.asarray(res.get_data("Energy"))
+    B = np.asarray(res.recip_lattice)
+    fnpz = f"{fout}-tabulate{sfx}.npz"
+    if "bin" in save_mode:
+        ctx.ev()
+        if not os.path.exists(fnpz):
+            ctx.violation("npz_file_missing", f"save_mode {save_mode!r}: {os.path.basename(fnpz)} not written", wit)
+        else:
+            with np.load(fnpz) as d:
+                if sorted(d.files) != sorted(list(names) + ["recip_lattice"]):
+                    ctx.violation("npz_file_keys", f"{sorted(d.files)} expected {sorted(names)} + recip_lattice", wit)
+                else:
+                    for q in names:
+                        ctx.close("npz_file[q]!=get_data(q)", d[q], np.asarray(res.get_data(q)), rtol=0, atol=0,
+                                  what=f"quantity {q}", witness=wit)
+                    ctx.close("npz_file[recip_lattice]!=system", d["recip_lattice"], B, rtol=0, atol=0, witness=wit)
+            ctx.count("npz_file_checked")
+    elif os.path.exists(fnpz):
+        ctx.ev()
+        ctx.violation("npz_file_unrequested", f"save_mode {save_mode!r} wrote {os.path.basename(fnpz)}", wit)
+    if "frmsf" in save_mode or "txt" in save_mode:
+        for q in names:
+            full = np.asarray(res.get_data(q))
+            comps = ["".join(c) for c in itertools.product(XYZ, repeat=RANK[q])] + (["trace"] if RANK[q] >= 2 else [])
+            if RANK[q] == 0:
+                comps = [None]
+            if len(comps) > 6:
+                comps = [comps[int(i)] for i in rng.choice(len(comps), 6, replace=False)]
+            for c in comps:
+                f = f"{fout}-tabulate_{q}-{c}{sfx}.frmsf"
+                if not os.path.exists(f):
+                    ctx.ev()
+                    ctx.violation("frmsf_file_missing", f"save_mode {save_mode!r}: {os.path.basename(f)} not written", wit)
+                    continue
+                with open(f) as fh:
+                    txt = fh.read()
+                check_frmsf_text(ctx, txt, N, E, numpy_component(full, RANK[q], c), B, dict(wit, quantity=q, component=c),
+                                 f"file of {q}-{c}")
+                ctx.count("frmsf_file_checked")
+    # direct calls: fermiSurfer text with a Fermi level, a band selection and a component; npz -> frmsf converter
+    from wannierberri.result.tabresult import npz_to_fermisurfer
+    q = names[int(rng.integers(len(names)))]
+    rank = RANK[q]
+    comp = gen_components(rng, rank, n=1)[0]
+    nb = E.shape[3]
+    ib = [None, int(rng.integers(nb)), sorted(int(x) for x in rng.choice(nb, int(rng.integers(1, nb + 1)), replace=False))][
+        int(rng.integers(3))]
+    sel = np.arange(nb) if ib is None else ([ib] if isinstance(ib, int) else ib)
+    ef = float(rng.normal())
+    txt = res.fermiSurfer(quantity=q, component=comp, efermi=ef, npar=0, iband=ib)
+    X = numpy_component(np.asarray(res.get_data(q)), rank, comp)
+    check_frmsf_text(ctx, txt, N, E[:, :, :, sel] - ef, X[:, :, :, sel], B, dict(wit, quantity=q, component=comp, iband=ib,
+                                                                                  efermi=ef), "fermiSurfer()")
+    ctx.count("fermiSurfer_direct")
+    txt = res.fermiSurfer(quantity=None, efermi=ef, npar=0, iband=ib)
+    check_frmsf_text(ctx, txt, N, E[:, :, :, sel] - ef, None, B, dict(wit, iband=ib, efermi=ef), "fermiSurfer(quantity=None)")
+    if "bin" in save_mode and os.path.exists(fnpz):
+        comp2 = None if rank == 0 else comp
+        txt = npz_to_fermisurfer(fnpz, quantity=q, component=comp2)
+        check_frmsf_text(ctx, txt, N, E, X, B, dict(wit, quantity=q, component=comp2), "npz_to_fermisurfer()")
+        ctx.count("npz_to_fermisurfer")
+
+
 # ------------------------------------------------------------------ the case -----------------------------
 
 def case(ctx, rng, idx, state):
@@ -221,18 +449,25 @@ def case(ctx, rng, idx, state):
 
     direct_component_tests(ctx, rng)
 
-    kind = ["generic", "generic", "generic", "generic", "generic", "cubic", "TR", "inv"][idx % 8]
+    handmade_collection_tests(ctx, rng)
+
+    kind = ["generic", "generic", "generic", "generic", "generic", "cubic", "TR", "inv", "copies"][idx % 9]
     has_AA = False
+    single, mult, opts = None, 1, {}
+    periodic = (True, True, True)
     if kind == "generic":
         nw = int(rng.integers(1, 5))
         has_AA = bool(rng.random() < 0.4)
         has_SS = bool(rng.random() < 0.25)
         if has_SS:
             nw = 2 * int(rng.integers(1, 3))
+        if rng.random() < 0.2:
+            periodic = (True, True, False)
+            ctx.count("system_2D")
         system = gen_systems.herm_system(rng, num_wann=nw, radius=rng.uniform(1.0, 2.2),
                                          keys=("Ham",) + (("AA",) if has_AA else ()) + (("SS",) if has_SS else ()),
                                          centers=["random", "outside", "zero"][int(rng.integers(3))],
-                                         spinor=True if has_SS else None)
+                                         spinor=True if has_SS else None, periodic=periodic)
         system, hist = gen_systems.history_variant(rng, system, which=gen_systems.HISTORIES_NO_DISK[int(rng.integers(4))])
         ctx.count(f"history_{hist}")
         pool = ["vel", "bc", "im", "dbc", "d3"] + (["spin", "dspin"] if has_SS else [])
@@ -242,9 +477,19 @@ def case(ctx, rng, idx, state):
     elif kind == "TR":
         system = tr_system(rng)
         pool = ["vel", "bc_int", "im", "dbc"]
-    else:
+    elif kind == "inv":
         system = inv_system(rng)
         pool = ["vel", "bc_int", "im", "dbc"]
+    else:
+        system, single, mult = copies_system(rng)
+        pool = ["vel", "bc_int", "im", "dbc", "d3"]
+        # documented grouping options of a calculator; 'all bands Kramers degenerate' is only true for two copies
+        u = int(rng.integers(3))
+        if u == 1:
+            opts = dict(degen_thresh=float(10 ** rng.uniform(-7, -4)))
+        elif u == 2 and mult == 2:
+            opts = dict(degen_Kramers=True)
+        ctx.count("grouping_option_" + ("default" if not opts else list(opts)[0]))
     nw = system.num_wann
     a0 = float(np.mean(np.linalg.norm(system.real_lattice, axis=1)))
     maxpts = 150 if ctx.thorough else 64
@@ -255,6 +500,8 @@ def case(ctx, rng, idx, state):
     else:
         while True:
             N = tuple(int(x) for x in rng.integers(1, 7, size=3))
+            if not periodic[2]:
+                N = (N[0], N[1], 1)
             if 2 <= int(np.prod(N)) <= maxpts:
                 break
         facts = [tuple(zip(*c)) for c in itertools.product(*[divisor_pairs(n) for n in N])]
@@ -269,24 +516,47 @@ def case(ctx, rng, idx, state):
     if len(names) == 1:
         names.append(pool[int(rng.integers(len(pool)))])
     ibands = None
-    if nw > 1 and rng.random() < 0.4:
+    if nw > 1 and rng.random() < (0.6 if kind == "copies" else 0.4):
         nbs = int(rng.integers(1, nw))
         ibands = sorted(int(x) for x in rng.choice(nw, nbs, replace=False))
+        u = rng.random()
+        if u < 0.3 and nbs > 1:  # the same set in another order
+            ibands = [ibands[int(i)] for i in rng.permutation(nbs)]
+        elif u < 0.5:  # bands listed twice
+            ibands = [ibands[int(i)] for i in rng.integers(nbs, size=nbs + int(rng.integers(1, 3)))]
     nb = nw if ibands is None else len(ibands)
-    wit0 = dict(kind=kind, num_wann=nw, N=N, quantities=names, ibands=ibands, has_AA=has_AA,
-                real_lattice=system.real_lattice, nR=len(system.rvec.iRvec))
+    wit0 = dict(kind=kind, num_wann=nw, N=N, quantities=names, ibands=ibands, has_AA=has_AA, periodic=periodic, copies=mult,
+                options=opts, real_lattice=system.real_lattice, nR=len(system.rvec.iRvec))
 
-    # ---- the oracle: every grid point alone, in C order
+    # ---- the oracle: every grid point alone, in C order, ALL bands (a band selection is a selection of these columns); for the
+    # m-fold degenerate models the point is evaluated on the single (non-degenerate) model: band b <-> band b // m
     pts = np.array([(i / N[0], j / N[1], k / N[2]) for i in range(N[0]) for j in range(N[1]) for k in range(N[2])])
+    osys = system if single is None else single
     oracle = {q: [] for q in names}
     for k in pts:
-        r = wb.evaluate_k(system, k=tuple(float(x) for x in k), calculators=fresh_tabulators(tab, names, ibands, has_AA),
+        r = wb.evaluate_k(osys, k=tuple(float(x) for x in k), calculators=fresh_tabulators(tab, names, None, has_AA),
                           return_single_as_dict=True)
         for q in names:
             oracle[q].append(np.array(r[q].data[0]))
-    oracle = {q: np.array(v).reshape(N + np.shape(v)[1:]) for q, v in oracle.items()}
+    bsel = np.arange(nw) if ibands is None else np.array(ibands)
+    oracle = {q: np.array(v)[:, bsel // mult].reshape(N + (nb,) + (3,) * RANK[q]) for q, v in oracle.items()}
+    if ibands is not None or single is not None:
+        # evaluate_k of the system itself with the band selection and the options, at a few points
+        for ip in rng.choice(len(pts), min(3, len(pts)), replace=False):
+            r = wb.evaluate_k(system, k=tuple(float(x) for x in pts[ip]), return_single_as_dict=True,
+                              calculators=fresh_tabulators(tab, names, ibands, has_AA, opts))
+            i3 = np.unravel_index(int(ip), N)
+            for q in names:
+                if RANK[q] > 0 and nw // mult > 1 and np.diff(gen_systems.bands(osys, pts[ip:ip + 1])[0]).min() <= GAP_GUARD:
+                    continue
+                ref = oracle[q][i3]
+                ctx.close("evaluate_k(ibands,options)!=evaluate_k(all bands)[ibands]", np.array(r[q].data[0]), ref,
+                          rtol=1e-9 if RANK[q] < 2 else 1e-8, scale=float(np.abs(oracle[q]).max()), atol=1e-9 * a0 ** NATURAL[q],
+                          what=f"quantity {q}", witness=dict(wit0, k=pts[ip]))
+            ctx.count("point_with_ibands_vs_all_bands")
     Eall = gen_systems.bands(system, pts)
-    good = (np.ones(len(pts), dtype=bool) if nw == 1 else (np.diff(Eall, axis=1).min(axis=1) > GAP_GUARD)).reshape(N)
+    Egap = gen_systems.bands(osys, pts)
+    good = (np.ones(len(pts), dtype=bool) if Egap.shape[1] == 1 else (np.diff(Egap, axis=1).min(axis=1) > GAP_GUARD)).reshape(N)
     nbad = int((~good).sum())
     if nbad:
         ctx.count("points_excluded_small_gap", nbad)
@@ -295,24 +565,64 @@ def case(ctx, rng, idx, state):
     tmp = tempfile.mkdtemp(dir=os.path.join(env.WORK, "c30"))
     try:
         res = None
-        for div, fft in facts:
-            if kind == "generic":
+        tall = None
+        for ifact, (div, fft) in enumerate(facts):
+            if kind in ("generic", "copies"):
                 irr = bool(rng.random() < 0.5)
             else:
                 irr = bool(rng.random() < 0.8)
-            wit = dict(wit0, NKdiv=div, NKFFT=fft, use_irred_kpt=irr)
+            # documented-equivalent flag sets: symmetrize is implied by use_irred_kpt; the generic models have no symmetry
+            symm = bool(rng.random() < 0.7)
+            if kind not in ("generic", "copies") and not irr:
+                symm = True
+            # only 'bin': with 'frmsf'/'txt' run() writes the text files through a multiprocessing pool of cpu_count processes per
+            # band and file (numproc=None), which must not be started inside a shard; the text is judged through fermiSurfer(npar=0)
+            save_mode = "bin"
+            suffix = ["", "", "s1"][int(rng.integers(3))]
+            fout = os.path.join(tmp, f"r{ifact}")
+            wit = dict(wit0, NKdiv=div, NKFFT=fft, use_irred_kpt=irr, symmetrize=symm, save_mode=save_mode, suffix=suffix)
             grid = Grid(system, NKdiv=list(div), NKFFT=list(fft))
-            tall = tab.TabulatorAll(fresh_tabulators(tab, names, None, has_AA), ibands=ibands, mode="grid")
-            out = wb.run(system, grid, calculators={"tabulate": tall}, parallel=False, use_irred_kpt=irr,
-                         fout_name=os.path.join(tmp, "r"), k_batch=int(rng.integers(1, 51)))
+            if tall is not None and rng.random() < 0.35:
+                ctx.count("tabulator_object_reused")  # the pack of tabulators of the previous factorisation, used once more
+                tall.save_mode = save_mode
+            else:
+                form = int(rng.integers(3))
+                ib_all = None if ibands is None else [list(ibands), tuple(ibands), np.array(ibands)][int(rng.integers(3))]
+                if form == 0:
+                    tabs = fresh_tabulators(tab, names, None, has_AA, opts)
+                elif form == 1:  # the selection given to every tabulator and to the pack
+                    tabs = fresh_tabulators(tab, names, ibands, has_AA, opts)
+                    ctx.count("ibands_on_both_levels")
+                else:  # 'Energy' is added by the pack
+                    tabs = fresh_tabulators(tab, [q for q in names if q != "Energy"], None, has_AA, opts)
+                    if opts:  # the automatically added Energy tabulator has default options: give the options through the others only when harmless
+                        tabs = fresh_tabulators(tab, names, None, has_AA, opts)
+                    else:
+                        ctx.count("energy_added_by_pack")
+                tall = tab.TabulatorAll(tabs, ibands=ib_all, mode=["grid", "GRID", "Grid"][int(rng.integers(3))],
+                                        save_mode=save_mode)
+            kw = {}
+            if PENDING and rng.random() < 0.3:
+                # finding 1: tabulation together with adaptive refinement
+                kw = dict(adpt_num_iter=int(rng.integers(1, 3)), file_Klist_path=os.path.join(tmp, f"kl{ifact}"))
+                ctx.count("pending_refinement")
+            out = wb.run(system, grid, calculators={"tabulate": tall}, parallel=False, use_irred_kpt=irr, symmetrize=symm,
+                         fout_name=fout, suffix=suffix, k_batch=int(rng.integers(1, 51)), **kw)
             res = out.results["tabulate"]
             ctx.count("use_irred_kpt" if irr else "no_irred_kpt")
+            ctx.count("symmetrize_flag_on" if symm else "symmetrize_flag_off")
             ctx.count("factorisation_mixed" if (max(div) > 1 and max(fft) > 1) else (
                 "factorisation_fft_only" if max(div) == 1 else "factorisation_div_only"))
             if ibands is not None:
                 ctx.count("ibands_subset")
+                if list(ibands) != sorted(ibands):
+                    ctx.count("ibands_unsorted")
+                if len(set(ibands)) < len(ibands):
+                    ctx.count("ibands_repeated")
+                if mult > 1 and len(set(b // mult for b in ibands)) * mult != len(set(ibands)):
+                    ctx.count("ibands_cut_a_multiplet")
             ctx.count(f"kind_{kind}")
-            if kind != "generic" and irr:
+            if kind not in ("generic", "copies") and irr:
                 ctx.count("symmetric_irreducible_run")
             # every point once, C order
             ctx.ev()
@@ -342,6 +652,9 @@ def case(ctx, rng, idx, state):
                           atol=1e-9 * a0 ** NATURAL[q], what=f"quantity {q}", witness=wit)
                 ctx.count("grid_points_vs_evaluate_k", int(sel.sum()))
                 ctx.count(f"quantity_rank{RANK[q]}")
+                if mult > 1:
+                    ctx.count("multiplet_vs_single_model", int(sel.sum()))
+            written_files_tests(ctx, rng, res, names, fout, suffix, save_mode, wit)
             ctx.nontrivial((kind, nw, N, div, fft, ibands is None, irr, tuple(names)))
         if res is not None and res.grid is not None:
             component_tests_on_result(ctx, rng, res, names, nb, wit0)
@@ -361,17 +674,34 @@ if __name__ == "__main__":
              "(Energy, Velocity, BerryCurvature, InvMass, DerBerryCurvature, Der3E, Spin, DerSpin with random SS), random k_batch; component "
              "specifications: strings (any case), index tuples, trace, norm, sq, iband None/int/list; a run is "
              "non-trivial when Prod(N)>=2, distinct by (kind, num_wann, N, NKdiv, NKFFT, band subset, irreducible, "
-             "quantities)",
+             "quantities); widening: 2D models (Nz=1), m=2,3 decoupled copies (every level m-fold degenerate, default / random "
+             "degen_thresh / degen_Kramers) judged against the single model, band lists unsorted / with repeats / cutting a "
+             "multiplet / given on both levels / as list, tuple, array, Energy added by the pack, mode spelled GRID/Grid, one "
+             "TabulatorAll re-used for the next factorisation, symmetrize flag, suffix; the npz written by run(), "
+             "fermiSurfer(efermi, iband, component) text and npz_to_fermisurfer vs the checked arrays; hand-made TABresult "
+             "objects (sizes up to 150 in one direction, size-one directions, 22/23/26/49, permuted, chunked and added, shifted by "
+             "G, noise <= 1e-7, duplicates) through find_grid / self_to_grid (twice) / to_grid on a coarser grid / get_data with "
+             "iband None/int/list/tuple/array",
         assumptions=["single-point oracle = wannierberri.evaluate_k with freshly built tabulators (the property is stated "
                      "against the evaluation of the point alone); energies also vs numpy eigvalsh of the explicit "
                      "Fourier sum",
                      "band-resolved non-scalar quantities are compared only at grid points whose minimal gap exceeds "
                      "1e-3 eV",
-                     "symmetric runs use models that have the declared point group exactly (by construction)"],
+                     "symmetric runs use models that have the declared point group exactly (by construction)",
+                     "the oracle evaluates all bands at a point and selects the requested columns (a band selection is defined as a "
+                     "selection of columns); evaluate_k with the selection itself is compared at 3 points per case",
+                     "save_mode with 'frmsf'/'txt' is not drawn through run(): it starts multiprocessing pools inside the case",
+                     "VERIF_C30_PENDING=1 adds three classes that fire on the unchanged tree (refinement with a tabulator, "
+                     "to_grid(order='F'), negative rounding noise in a size-one direction)"],
         required_counters=("grid_points_vs_evaluate_k", "energy_vs_diag", "factorisation_mixed", "factorisation_fft_only",
                            "factorisation_div_only", "ibands_subset", "use_irred_kpt", "no_irred_kpt", "kind_generic",
                            "kind_cubic", "kind_TR", "kind_inv", "symmetric_irreducible_run", "component_rank0",
                            "component_rank1", "component_rank2", "component_rank3", "component_direct_rank2",
                            "component_direct_rank3", "tuple_component_offdiagonal", "quantity_rank1", "quantity_rank2",
-                           "quantity_rank3"),
+                           "quantity_rank3", "handmade_collection", "handmade_size_ge100", "handmade_duplicates",
+                           "handmade_noisy_kpoints", "handmade_coarser_grid", "idempotent_regrid", "kind_copies",
+                           "multiplet_vs_single_model", "ibands_cut_a_multiplet", "ibands_unsorted", "ibands_repeated",
+                           "ibands_on_both_levels", "energy_added_by_pack", "point_with_ibands_vs_all_bands",
+                           "tabulator_object_reused", "symmetrize_flag_off", "system_2D", "npz_file_checked",
+                           "fermiSurfer_direct", "npz_to_fermisurfer", "iband_form_tuple", "iband_form_ndarray"),
     )
